@@ -6,7 +6,7 @@
     the bound contracts).  Amounts are unbounded integers: the theorems hold for every offered
     amount (in particular up to 2^128), every positive ratio with 18 decimals and every pair of
     scales 0..18. *)
-From Irismod Require Import Token.Model Token.Check Token.ProofsBank Token.ProofsLossLess Token.Proofs Token.ProofsConv Token.Sound.
+From Irismod Require Import Token.Model Token.Check Token.ProofsBank Token.ProofsLossLess Token.Proofs Token.ProofsConv Token.Sound Token.Passes Token.PassesConv.
 
 (** ** the kernel *)
 
@@ -129,6 +129,8 @@ Proof. intros. apply run_RegInv, genesis_RegInv. Qed.
 Print Assumptions registry_invariant_reachable.
 
 (** Sequences mixing conversions in both directions — messages and swap-to-native hook calls —
+    with ERC20 deployments for other tokens (existing or IBC-style new ones) and implementation
+    upgrades ([conversion] = ToErc20 / FromErc20 / HookToNative / Deploy / UpgradeErc20 / EvmMode),
     successful and failed, for any tokens, by any senders to any receivers, with the EVM double
     misbehaving in any way: for every token bound to a contract, native supply + ERC20 supply is
     what it was. *)
@@ -190,6 +192,33 @@ Theorem symbol_first_lookup_picks_another_token :
     /\ t_scale ta <> t_scale tb /\ t_contract ta <> 0 /\ t_contract tb <> 0 /\ t_contract ta <> t_contract tb.
 Proof. exact symbol_first_lookup_differs. Qed.
 Print Assumptions symbol_first_lookup_picks_another_token.
+
+(** ** the checker and the model *)
+
+(** Every model trace passes the C10 checker of the stream "erc20": for every history of ARBITRARY
+    messages of the model (issue, edit, mint, burn, transfer-owner, fee-token swap, ERC20 deployment
+    and upgrade, conversions in both directions, swap-to-native hook, parameter updates, the EVM
+    double switched to any mode) from a genesis whose swap registry has positive ratios, the function
+    [check_case_C10] that the check evaluates on IMPLEMENTATION traces, fed the model's own
+    observations, answers (-1, -1, 0): correspondence and every clause (to / from ERC20 and hook
+    conservation with everything else unchanged, the three kernel clauses on the fee-token swap, the
+    administrative messages, failed messages) pass.  With [lossless_checker_quiet_on_model] for the
+    pure stream, the C10 check alarms only where the implementation's trace differs from the model. *)
+Theorem model_passes_check_C10 :
+  forall p balances ss reg (ms : list msg),
+    NoDup (keys balances) -> (forall d tr, get d reg = Some tr -> 0 < snd tr) ->
+    let s0 := genesis p balances ss reg in
+    check_case_C10 (mkCase p balances ss reg (obs_of s0 0) (model_trace s0 ms)) = (-1, -1, 0).
+Proof. exact model_passes_check_C10_lemma. Qed.
+Print Assumptions model_passes_check_C10.
+
+Example model_passes_check_C10_hypotheses :
+  NoDup (keys [((0, STAKE), 1000000); ((1, STAKE), 1000000)])
+  /\ (forall d tr, get d [((6, 4), ((7, 4), 500000000000000000))] = Some tr -> 0 < snd tr).
+Proof.
+  split; [repeat constructor; simpl; intuition discriminate|].
+  intros d tr. simpl. destruct (eq_dec d (6, 4)); [|discriminate]. intros H. inversion H. simpl. lia.
+Qed.
 
 (** ** the hypotheses are satisfiable by non-trivial inputs and histories *)
 Example c10_kernel_nonvacuous :
